@@ -482,6 +482,117 @@ def parse (ts : List Tok) : Option CVal :=
   | some (v, []) => some v
   | _ => none
 
+/-! ## character-level tokenizer for the sub-language `encode_cel` emits
+
+  Modelled on celpy's lark terminals (celpy/cel.lark) as its contextual lexer applies them in
+  the positions that occur: WHITESPACE is ignored; `[ ] { } , :` are the anonymous punctuation
+  terminals; a text starting with `-`, `.` or a digit is matched by FLOAT_LIT (tried first) or
+  INT_LIT — greedy digits, an optional `.digits`, an exponent only when it is complete
+  (`[eE][+-]?DIGIT+`); a text starting with `"` is MLSTRING_LIT when it starts with `"""`
+  (tried first), else STRING_LIT; a text starting with a letter or `_` is matched by IDENT's
+  `[_a-zA-Z][_a-zA-Z0-9]*` and is BOOL_LIT / NULL_LIT exactly when the whole run is
+  `true` / `false` / `null` (any other identifier is outside the sub-language: `none`).
+  Anything else (operators, a lone `-`, raw / single-quoted / bytes strings, `u` suffixes,
+  hex) is outside the sub-language as well. -/
+
+def isWs (c : Char) : Bool := c = ' ' || c = '\t' || c = '\n' || c = '\r' || c = Char.ofNat 12
+
+def isIdentStart (c : Char) : Bool :=
+  ('a'.toNat ≤ c.toNat && c.toNat ≤ 'z'.toNat) || ('A'.toNat ≤ c.toNat && c.toNat ≤ 'Z'.toNat) || c = '_'
+
+def isIdentChar (c : Char) : Bool := isIdentStart c || isDigit c
+
+/-- length of a complete exponent `[eE][+-]?DIGIT+` at the start of `t`, 0 if there is none -/
+def expLen (t : Str) : Nat :=
+  match t with
+  | [] => 0
+  | l :: t1 =>
+    if l = 'e' ∨ l = 'E' then
+      match t1 with
+      | [] => 0
+      | s :: t2 =>
+        if s = '+' ∨ s = '-' then
+          (if t2.takeWhile isDigit = [] then 0 else 2 + (t2.takeWhile isDigit).length)
+        else
+          (if t1.takeWhile isDigit = [] then 0 else 1 + (t1.takeWhile isDigit).length)
+    else 0
+
+/-- after the sign and `ipLen` integer digits: how far FLOAT_LIT / INT_LIT reach -/
+def numLenAfter (ipLen : Nat) (t2 : Str) : Option Nat :=
+  match t2 with
+  | [] => if ipLen = 0 then none else some ipLen
+  | c :: t3 =>
+    if c = '.' then
+      (if ipLen = 0 ∧ t3.takeWhile isDigit = [] then none
+       else some (ipLen + 1 + (t3.takeWhile isDigit).length + expLen (t3.dropWhile isDigit)))
+    else if ipLen = 0 then none else some (ipLen + expLen t2)
+
+/-- length of the number token at the start of `t` -/
+def numLen (t : Str) : Option Nat :=
+  match t with
+  | [] => none
+  | c :: r =>
+    if c = '-' then (numLenAfter (r.takeWhile isDigit).length (r.dropWhile isDigit)).map (· + 1)
+    else numLenAfter (t.takeWhile isDigit).length (t.dropWhile isDigit)
+
+/-- length of the string token whose opening quote precedes `t1` -/
+def strLen (t1 : Str) : Option Nat :=
+  if t1.take 2 = ['"', '"'] then
+    match scanLong (t1.drop 2) with
+    | some (_, rest) => some (1 + t1.length - rest.length)
+    | none => none
+  else
+    match scanShort t1 with
+    | some (_, rest) => some (1 + t1.length - rest.length)
+    | none => none
+
+/-- the token at the start of `t` (which does not start with white space) and the length of its text -/
+def nextTok (t : Str) : Option (Tok × Nat) :=
+  match t with
+  | [] => none
+  | c :: r =>
+    if c = '-' ∨ c = '.' ∨ isDigit c then
+      match numLen t with
+      | some n => some (.lit (t.take n), n)
+      | none => none
+    else if c = '"' then
+      match strLen r with
+      | some n => some (.lit (t.take n), n)
+      | none => none
+    else if isIdentStart c then
+      (let w := t.takeWhile isIdentChar
+       if w = nullText ∨ w = trueText ∨ w = falseText then some (.lit w, w.length) else none)
+    else if c = '[' then some (.lbrack, 1)
+    else if c = ']' then some (.rbrack, 1)
+    else if c = '{' then some (.lbrace, 1)
+    else if c = '}' then some (.rbrace, 1)
+    else if c = ',' then some (.comma, 1)
+    else if c = ':' then some (.colon, 1)
+    else none
+
+def consTok (t : Tok) : Option (List Tok) → Option (List Tok)
+  | some ts => some (t :: ts)
+  | none => none
+
+/-- cut a text into the tokens of the sub-language -/
+def tokenize (t : Str) : Option (List Tok) :=
+  match t with
+  | [] => some []
+  | c :: r =>
+    if isWs c then tokenize r
+    else
+      match nextTok (c :: r) with
+      | some (tok, n) => consTok tok (tokenize (r.drop (n - 1)))
+      | none => none
+termination_by t.length
+decreasing_by all_goals (simp only [List.length_cons, List.length_drop]; omega)
+
+/-- tokenise, then parse: the whole reading of an emitted text -/
+def parseChars (t : Str) : Option CVal :=
+  match tokenize t with
+  | some ts => parse ts
+  | none => none
+
 /-! ## the specification: what must arrive -/
 
 /-- the documented exception applied to a string value -/
